@@ -704,3 +704,82 @@ def run(chk, cid, prog, p, cfgname):
                     for (node, what) in list(reps.values())[:3]:
                         chk.violate(cid, '%s:%s' % (inst, re.sub(r'\W+', '_', what[:40])), loc(f, node), fname, what, cfgname=cfgname)
     return n
+
+
+def run_snode(chk, cid, prog, p, cfgname):
+    """?snode_bmod updates column jcol of its own supernode [fsupc..]: x = L[0..nsupc) block solve on the first nsupc = jcol - fsupc entries of the column,
+    then the rows below:  trsv A = (column 0, row 0), order nsupc, x = (column jcol - fsupc, row 0);  gemv A = (column 0, row nsupc), nsupr - nsupc rows,
+    nsupc columns, x as before, y = (column jcol - fsupc, row nsupc), all with leading dimension nsupr."""
+    f = prog.func(p + 'snode_bmod')
+    if f is None:
+        from ..run import AnalysisBroken
+        raise AnalysisBroken('%ssnode_bmod not found' % p)
+    chk.saw(unit=f.unit, func=f.unit + ':' + f.name)
+    reps = {}
+
+    def report(node, what):
+        reps.setdefault((node.line, what[:60]), (node, what))
+    m = Machine(f, 'big', False, report)
+    for (nm, i, t) in f.params:
+        if (t or '').replace('const', '').strip() in ('int', 'int_t'):
+            m.env[nm] = ps(nm)
+    calls = []
+    orig_call = m.call
+
+    def call(c, node):
+        name = callee_name(c) or ''
+        a = c.c[1:]
+        d = lambda z: strip(z).c[0] if strip(z).k == 'Unary' and strip(z).a['op'] == '&' else z
+        jc = padd(m.env.get('jcol'), m.env.get('fsupc'), -1)
+        if name.endswith(('trsv_', 'lsolve')):
+            if len(a) == 8:
+                n_, A_, lda_, x_ = a[3], a[4], a[5], a[6]
+            else:
+                lda_, n_, A_, x_ = a[0], a[1], a[2], a[3]
+            n, lda, A, x = m.iv(d(n_)), m.iv(d(lda_)), m.lusup_coords(A_), m.lusup_coords(x_)
+            calls.append('trsv')
+            if A is None or x is None:
+                m.unknown.append(pretty(c)[:60])
+                return
+            m.need(not A[0] and not A[1], node, 'the block solve must start at the first entry of the supernode (column 0, row 0); `%s` is at column offset %s, row %s'
+                   % (pretty(A_)[:30], pshow(A[0]), pshow(A[1])))
+            m.need(m.peq(n, jc) and m.peq(lda, ps(NS)), node, 'order must be jcol - fsupc and the leading dimension nsupr; got %s, %s' % (pshow(n), pshow(lda)))
+            m.need(m.peq(x[0], jc) and not x[1], node, 'the vector is column jcol of the supernode from its first row; `%s` is at column offset %s, row %s'
+                   % (pretty(x_)[:30], pshow(x[0]), pshow(x[1])))
+            return
+        if name.endswith(('gemv_', 'matvec')):
+            if len(a) == 11:
+                m_, n_, A_, lda_, x_, y_ = a[1], a[2], a[4], a[5], a[6], a[9]
+            else:
+                lda_, m_, n_, A_, x_, y_ = a
+            mm, n, lda, A, x = m.iv(d(m_)), m.iv(d(n_)), m.iv(d(lda_)), m.lusup_coords(A_), m.lusup_coords(x_)
+            y = m.lusup_coords(y_)
+            calls.append('gemv')
+            if A is None or x is None:
+                m.unknown.append(pretty(c)[:60])
+                return
+            m.need(not A[0] and m.peq(A[1], jc), node, 'the block product uses the rows below the first jcol - fsupc ones of columns 0..; `%s` is at column offset %s, row %s'
+                   % (pretty(A_)[:30], pshow(A[0]), pshow(A[1])))
+            m.need(m.peq(n, jc) and m.peq(padd(mm, n), ps(NS)) and m.peq(lda, ps(NS)), node,
+                   'the block product has nsupr - nsupc rows, nsupc = jcol - fsupc columns and leading dimension nsupr; got %s rows, %s columns, lda %s' % (pshow(mm), pshow(n), pshow(lda)))
+            m.need(m.peq(x[0], jc) and not x[1], node, 'x is column jcol from its first row; it is at column offset %s, row %s' % (pshow(x[0]), pshow(x[1])))
+            if y is not None:
+                m.need(m.peq(y[0], jc) and m.peq(y[1], jc), node, 'y is column jcol from row jcol - fsupc on; it is at column offset %s, row %s' % (pshow(y[0]), pshow(y[1])))
+            return
+    m.call = call
+    try:
+        m.exec(f.body)
+    except Stop:
+        pass
+    inst = '%s:block-operands' % f.name
+    if m.unknown and not reps:
+        from ..run import AnalysisBroken
+        raise AnalysisBroken('%s: cannot interpret %s' % (f.name, m.unknown[:2]))
+    if sorted(calls) != ['gemv', 'trsv']:
+        from ..run import AnalysisBroken
+        raise AnalysisBroken('%s: expected one triangular solve and one block product, saw %s' % (f.name, calls))
+    if not reps:
+        chk.ok(cid, inst, sample='%d index identities hold' % m.nobl)
+    for (node, what) in list(reps.values())[:3]:
+        chk.violate(cid, '%s:%s' % (inst, re.sub(r'\W+', '_', what[:40])), loc(f, node), f.name, what, cfgname=cfgname)
+    return 1
